@@ -29,6 +29,15 @@ CHECKS = {
                 note=PC_NOTE, tech=PC_TECH),
 }
 
+RACE_NOTE = ("Trusted: TLC; the controller serialises goroutines at lib.VerifPoint granularity; every edge (not every path) of the bounded "
+             "model's state graph is replayed; notification delivery is atomic with the drain step that caused it.")
+CHECKS["C04"] = dict(level="model_checking", ref="DESIGN.md §4 C04, §9",
+    text="TLA+ spec Relations (request = table check, add, re-check; termination = table delete, drain+notify) model-checked exhaustively for 2-3 "
+         "consumers x {link, monitor} x {with/without removal} x target kinds {pid, name, alias, event} x {Kill, UnregisterName}; an edge cover of each state graph is "
+         "replayed on a real node (real LinkX/MonitorX/UnlinkX calls inside consumer callbacks racing a real Kill/UnregisterName) and every recorded execution is "
+         "validated by TLC: exactly one exit/down with the right target and reason for a relation that holds, none otherwise.",
+    note=RACE_NOTE, tech="TLA+ spec Relations + TLC; edge-cover plans replayed under the controlling scheduler; traces validated by TLC (Relations_Trace: Core conformance with drift detection, clauses over observations)")
+
 NOT_YET = {
 }
 
